@@ -40,6 +40,40 @@ fn sel<OS: OrdStrat + Copy>(cands: &[Cand], perms: bool) -> String {
     if a == b { a } else { format!("{} | shared {}", a, b) }
 }
 
+/// A candidate type of the CALLER's: a route and the age of the entry, ordered by the route and then by age (oldest
+/// first). `best` / `best_backup` / `best_backup_position` take any `T: Ord + Borrow<OrdRoute>`, and "preferred" is
+/// then `T`'s order (which here refines the route order): the best of `best_backup` must still be a minimum of the
+/// candidates and the item `best` returns (round-7 seed: the comparisons of `_best_backup` made on the borrowed route
+/// only, the `T: Ord` bound dropped).
+#[derive(Clone, Copy)]
+struct Aged<'a, OS>(OrdRoute<'a, OS>, u32);
+impl<'a, OS: OrdStrat> PartialEq for Aged<'a, OS> { fn eq(&self, o: &Self) -> bool { self.cmp(o) == Ordering::Equal } }
+impl<'a, OS: OrdStrat> Eq for Aged<'a, OS> {}
+impl<'a, OS: OrdStrat> PartialOrd for Aged<'a, OS> { fn partial_cmp(&self, o: &Self) -> Option<Ordering> { Some(self.cmp(o)) } }
+impl<'a, OS: OrdStrat> Ord for Aged<'a, OS> { fn cmp(&self, o: &Self) -> Ordering { self.0.cmp(&o.0).then(self.1.cmp(&o.1)) } }
+impl<'a, OS: OrdStrat> std::borrow::Borrow<OrdRoute<'a, OS>> for Aged<'a, OS> { fn borrow(&self) -> &OrdRoute<'a, OS> { &self.0 } }
+
+/// `` or ` WRAP-BAD:<why>`: the selection over caller-typed candidates (ages from the position, so that route-equal
+/// candidates come in both age orders)
+fn wrapped_check<OS: OrdStrat + Copy>(rs: &[OrdRoute<OS>]) -> String {
+    // with the MED step the preference is not transitive (known finding K11: a candidate set can be a cycle, in which
+    // "no candidate is preferred over the best" has no solution): judged for SkipMed only
+    if !std::any::type_name::<OS>().contains("SkipMed") { return String::new(); }
+    let ws: Vec<Aged<OS>> = rs.iter().enumerate().map(|(i, r)| Aged(*r, ((i * 7 + 3) % 4) as u32)).collect();
+    let (wb, wk) = best_backup(ws.iter().copied());
+    let sb = best(ws.iter().copied());
+    match (wb, sb) {
+        (None, None) => String::new(),
+        (Some(b), Some(s)) => {
+            if b.cmp(&s) != Ordering::Equal { return " WRAP-BAD:best-of-best_backup-is-not-best()".into(); }
+            if ws.iter().any(|c| c < &b) { return " WRAP-BAD:a-candidate-is-preferred-over-the-best".into(); }
+            if let Some(k) = wk { if k < b { return " WRAP-BAD:backup-preferred-over-best".into(); } }
+            String::new()
+        }
+        _ => " WRAP-BAD:one-of-best/best_backup-selects-nothing".into(),
+    }
+}
+
 fn sel_on<OS: OrdStrat + Copy>(built: &[(PaMap, TiebreakerInfo)], maps: &[&PaMap], perms: bool) -> String {
     let rs: Vec<OrdRoute<OS>> = built.iter().zip(maps).map(|((_, t), m)| OrdRoute::try_new(*m, *t).unwrap()).collect();
     if !perms {
@@ -66,7 +100,7 @@ fn sel_on<OS: OrdStrat + Copy>(built: &[(PaMap, TiebreakerInfo)], maps: &[&PaMap
         };
         let own = same(&ob, pb) && same(&ok, pk);
         format!("pos={},{} val={},{} best={} gen={},{}{}", oi(pb), oi(pk), idx(&rs, vb), idx(&rs, vk), idx(&rs, sb),
-            idx(&rs, gb), idx(&rs, gk), if own { "" } else { " by-value-differs" }) + &shape
+            idx(&rs, gb), idx(&rs, gk), if own { "" } else { " by-value-differs" }) + &shape + &wrapped_check(&rs)
     } else {
         let n = rs.len();
         let mut out: BTreeSet<(usize, Option<usize>)> = BTreeSet::new();
@@ -427,6 +461,7 @@ impl Prop for C11 {
     fn oracle(&self, line: &str, reply: &str) -> Result<(), String> {
         if reply == "bad-op" { return Ok(()); }
         if reply == "panic" { return Err("panic".into()); }
+        if let Some(i) = reply.find("WRAP-BAD") { return Err(format!("candidates of a caller's own type (route, then age): {}", &reply[i..])); }
         let w: Vec<&str> = line.split(' ').collect();
         match w.as_slice() {
             [op @ ("sel" | "selperm"), s, rest @ ..] => {
